@@ -89,8 +89,8 @@ CHECKS = {
         category='model_checking', design_ref='DESIGN.md section 3, C01',
         technique='deviation-bounded exhaustive enumeration of model topologies built with the real constructors; exact rational solution of the emitted equations; conservation sum checked in every (spec, period) state',
         text='Every well-formed topology within the deviation bound of the base economy (5 families: one country, federated zone, two and three '
-             'currency zones with external sector, two zones without) is built through the public constructors; Model.main() emits the equations, '
-             '(incl. read-only look-ups made while the model is being built) an independent reader + exact Fraction solver solves periods 1..3, and for every currency zone sum dF + FX NET must be exactly 0; the model\'s zone membership must equal the declared currencies.',
+             'currency zones with external sector, two zones without) is built through the public constructors (also with read-only look-ups made while the model is being built); Model.main() emits the equations, '
+             'an independent reader + exact Fraction solver solves periods 1..3, and for every currency zone sum dF + FX NET must be exactly 0; the model\'s zone membership must equal the declared currencies.',
         note='Trusted: mc/exact.py (reader, affine solver; cross-checked against the library float solution on every converged case), mc/topo.py grammar. '
              'Bounded: deviation bound 2 (quick) / 3 (thorough), horizon 3, two-point parameter alphabets; the non-affine PC-style weight uses a float gap oracle.'),
     'C04': dict(
